@@ -774,8 +774,8 @@ def gen_c01(tier, seed):
     # firmware-saved NVRAM with each valid host-speed option (offset 2: 0..5; 5 = 300 baud, where a character takes
     # longer than the 20 ms key spacing), and a full window of line feeds (scrolling) before the typing starts
     bursts = [(2, 1000, 'burst', nb) for nb in (3, 4)] if tier == 'quick' else [(v, k, 'burst', nb) for v in (1, 2) for k in (250, 1000) for nb in (2, 3, 4)]
-    extra = [(2, 1000, 'opt5', 0), (2, 1000, 'blank', 130), (1, 1000, 'blank', 130), (1, 1000, 'traffic', 2), (1, 1000, 'traffic', 25), (2, 1000, 'traffic', 2)] if tier == 'quick' else \
-            [(v, k, 'traffic', d) for v in (1, 2) for k in (250, 1000) for d in (1, 2, 5, 25)] + \
+    extra = [(2, 1000, 'opt5', 0), (2, 1000, 'blank', 130), (1, 1000, 'blank', 130), (1, 1000, 'traffic', 2), (1, 1000, 'traffic', 25), (2, 1000, 'traffic', 2), (2, 1000, 'special', 0), (1, 1000, 'special', 0)] if tier == 'quick' else \
+            [(v, k, 'traffic', d) for v in (1, 2) for k in (250, 1000) for d in (1, 2, 5, 25)] + [(v, k, 'special', 0) for v in (1, 2) for k in (250, 1000, 4000)] + \
             [(2, k, 'opt%d' % o, 0) for o in range(6) for k in (250, 1000)] + [(v, k, 'blank', 130) for v in (1, 2) for k in (250, 1000, 4000)]
     for (v, k, nv, nlf) in [(a, b, c, 0) for (a, b, c) in combos] + extra + bursts:
         nlf_burst, nlf = (nlf, 0) if nv == 'burst' else (0, nlf)
@@ -808,6 +808,14 @@ def gen_c01(tier, seed):
             # and falls behind a line feed every 5 ms; the host queue holds the rest): 60 ms of emulated time per line
             ops += ['run:%x' % (3 * t20 * nlf)]
         keys = [r.choice(list(range(0x20, 0x7f))) for _ in range(r.randrange(5, 12) if not nv.startswith('opt') else 12)]
+        if nv == 'special':
+            # function, cursor and keypad key codes (0x80-0x9f) and control codes first: the terminal sends their escape
+            # sequences (not judged: dx drains them); it must survive them and still echo ordinary keys afterwards
+            # (0x8e and 0x8f are left out: after either, firmware 8;7;5 no longer transmits typed keys -- they look like
+            # the set-up / hold keys; what they do is outside the property)
+            for kc in list(range(0x80, 0x8e)) + list(range(0x90, 0xa0)) + [0x00, 0x1b, 0x7f, 0xff]:
+                ops += ['qb:%x' % kc, 'run:%x' % (t20 * 2)]
+            ops += ['run:%x' % (t20 * 10), 'dx']
         if nv == 'burst':
             # a burst: several keys queued at once, then a few instructions that each take a whole character time, so
             # that the receiver FIFO (3) and the holding register fill before the firmware's handler reads; at most 4 such
